@@ -348,7 +348,8 @@ example : ∃ r route, ConfigUniform.Example.exR.runVertex 3 (some 0) [3, 2, 1, 
   exact ⟨r, route, hr, h1, h5⟩
 
 /-- the edge-oriented theorems on actual runs of `exConfig`: non-adjacent (origin edge 0, destination
-edge 2: route `[0, 1, 2]`, the inner tree rooted at vertex 1) and destination-less (origin edge 4) -/
+edge 2: route `[0, 1, 2]`, the inner tree rooted at vertex 1) and, in the next example,
+destination-less (origin edge 4) -/
 example : ∃ r tree, SearchRoute.Example.exConfig.runEdge 0 (some 2) [1, 2] = .ok r ∧
     r.trees = [tree] ∧ tree 1 = none := by
   obtain ⟨r, hr⟩ := SearchRoute.Example.ok_of_routeEdgesOf
@@ -358,6 +359,20 @@ example : ∃ r tree, SearchRoute.Example.exConfig.runEdge 0 (some 2) [1, 2] = .
     SearchRoute.Example.exConfig_adj 0 2 [1, 2] r ⟨0, 1, 1000⟩ ⟨2, 3, 500⟩ rfl rfl (by decide)
     (by decide) hr
   exact ⟨r, tree, hr, h1, h2⟩
+
+/-- … the destination-less one: from origin edge 4 (3→1) the tree holds the origin edge's entry under
+the origin edge's head, vertex 1, the root (`edge_oriented_tree_rooted`) -/
+example : ∃ r tree o, SearchRoute.Example.exConfig.runEdge 4 none [1, 2, 3] = .ok r ∧
+    r.trees = [tree] ∧ tree 1 = some o ∧ o.edge = 4 := by
+  have hobs : (SearchRoute.Example.treeEntriesOf
+      (SearchRoute.Example.exConfig.runEdge 4 none [1, 2, 3]) [0]).isSome = true := by
+    decide +kernel
+  cases hr : SearchRoute.Example.exConfig.runEdge 4 none [1, 2, 3] with
+  | error k => rw [hr] at hobs; simp [SearchRoute.Example.treeEntriesOf] at hobs
+  | ok r =>
+    obtain ⟨tree, h1, ⟨o, h2, h3, _⟩, _⟩ := edge_oriented_tree_rooted SearchRoute.Example.exConfig
+      SearchRoute.Example.exConfig_adj 4 [1, 2, 3] r ⟨3, 1, 700⟩ rfl hr
+    exact ⟨r, tree, o, rfl, h1, h2, h3⟩
 
 end C01
 end Compass
